@@ -153,6 +153,7 @@ func (s *uciSim) deliver(line string) bool {
 		s.res.Tracef("[%d] > %s", s.steps, line)
 		s.k.Event("in:" + line)
 		s.quiet = 0
+		s.sync()
 		return true
 	default:
 		return false
@@ -167,6 +168,7 @@ func (s *uciSim) closeInput() {
 		s.res.Tracef("[%d] > <EOF>", s.steps)
 		s.k.Event("in:EOF")
 		s.quiet = 0
+		s.sync()
 	}
 }
 
